@@ -283,10 +283,14 @@ def strLe (a b : String) : Bool := decide (a ≤ b)
 /-- `sort.Strings(keys)` over the matchLabels map. -/
 def sortByKey (l : Labels) : Labels := l.mergeSort (fun a b => strLe a.1 b.1)
 
+/-- The values as the parser reads them back from `{ '%s' }` with the values joined by `', '`:
+an EMPTY value list prints as `{ '' }`, i.e. the one-element set containing the empty string. -/
+def printedValues (vs : List String) : List String := if vs.isEmpty then [""] else vs
+
 def exprTerms (e : Expr) : List Term :=
   match e.op with
-  | .opIn => [.inSet e.key e.values]
-  | .opNotIn => [.notIn e.key e.values]
+  | .opIn => [.inSet e.key (printedValues e.values)]
+  | .opNotIn => [.notIn e.key (printedValues e.values)]
   | .opExists => [.has e.key]
   | .opDoesNotExist => [.notHas e.key]
   | .opOther => []
